@@ -22,6 +22,7 @@ import multiprocessing as mp
 import multiprocessing.pool
 import os
 import sys
+import time
 
 from harness import framework, tlc, c03
 
@@ -130,6 +131,40 @@ def shipped(ctx, nwords):
         ctx.sample({"source": "T", "spec": t["t"], "format": "".join(map(chr, t["fmt"])), "events": t["ev"][:2]}, cap=6)
 
 
+def shipped_macros(ctx):
+    """T: every format string written in the x86/x64 spec files, expanded by TLC (Ia32Expand), must be the
+    format of a registered ispec_ia32 object"""
+    with mp.Pool(2) as pool:
+        outs = pool.map(c03.macro_sources, ["x86.cpu_x86", "x64.cpu_x64"])
+    traces, have = [], {}
+    for o in outs:
+        if o.get("error"):
+            continue      # already reported by shipped()
+        have[o["isa"]] = set(o["formats"])
+        for k, orig in enumerate(o["origs"]):
+            traces.append({"t": "macro/%s/%d" % (o["isa"], k), "fmt": c03.cps(orig), "ev": [{"k": "expand"}]})
+    if not traces:
+        raise tlc.MachineryError("no @ispec_ia32 format string found in the x86/x64 spec files")
+    verdicts = validate_traces(ctx, traces, tag="c03X")
+    nmacro = 0
+    for t in traces:
+        v = verdicts.get(t["t"])
+        if v is None:
+            raise tlc.MachineryError("no verdict for %s" % t["t"])
+        orig = "".join(map(chr, t["fmt"]))
+        isa = t["t"].split("/")[1]
+        ctx.case(key=("X", orig) if "/" in orig else None)
+        ctx.trace()
+        nmacro += 1 if "/" in orig else 0
+        exp = "".join(map(chr, v["exp"]))
+        if v["verdict"] != "ok" or exp not in have[isa]:
+            ctx.fail("C03:T:macro:%s:%s" % (isa, orig),
+                     "%s: no registered ispec_ia32 has the format %r that %r expands to (documented '/r' '/digit' macro)"
+                     % (isa, exp, orig), {"source": "T", "trace": t})
+    ctx.count("ia32_source_formats_checked", len(traces))
+    ctx.count("ia32_source_formats_with_macro", nmacro)
+
+
 def replay(ctx):
     with open(ctx.replay) as f:
         case = json.load(f)["case"]
@@ -165,15 +200,22 @@ def run(ctx):
     ctx.assume("extractor ranges are read from the closure defaults (p, q, x) and the value form from the closure's co_names")
     if ctx.replay:
         return replay(ctx)
-    # --- M ---------------------------------------------------------------------------------------
-    if quick:
-        run_models(ctx, ["IspecMC_quick.cfg", "IspecMC_dec_quick.cfg", "IspecMC_lex_quick.cfg"], workers=5)
+    t0 = time.time()
+    if os.environ.get("VERIF_SKIP_MODEL"):
+        # mutation experiments on amoco only: the M stage does not read /repo
+        ctx.note("model_checking_skipped", "VERIF_SKIP_MODEL set")
     else:
-        run_models(ctx, ["IspecMC_thorough.cfg", "IspecMC_dec_thorough.cfg", "IspecMC_lex_thorough.cfg"], workers=5)
-    res = tlc.run("Ispec", "IspecMC_dev.cfg", expect_violation=True, tag="c03dev")
-    if not res.violation or "DocImpl" not in res.violation:
-        raise tlc.MachineryError("self-test: fault EqNoRewindDown did not violate DocImpl (invariant vacuous?)")
-    ctx.note("selftest_fault_detected_by_model", res.violation)
+        # --- M ---------------------------------------------------------------------------------------
+        if quick:
+            run_models(ctx, ["IspecMC_quick.cfg", "IspecMC_dec_quick.cfg", "IspecMC_lex_quick.cfg"], workers=5)
+        else:
+            run_models(ctx, ["IspecMC_thorough.cfg", "IspecMC_dec_thorough.cfg", "IspecMC_lex_thorough.cfg"], workers=5)
+        res = tlc.run("Ispec", "IspecMC_dev.cfg", expect_violation=True, tag="c03dev")
+        if not res.violation or "DocImpl" not in res.violation:
+            raise tlc.MachineryError("self-test: fault EqNoRewindDown did not violate DocImpl (invariant vacuous?)")
+        ctx.note("selftest_fault_detected_by_model", res.violation)
+    ctx.note("wall_s_M", round(time.time() - t0, 1))
+    t0 = time.time()
     # --- G ---------------------------------------------------------------------------------------
     if quick:
         gen_and_replay(ctx, "IspecGen_all8_quick.cfg", "all8")
@@ -184,8 +226,12 @@ def run(ctx):
         gen_and_replay(ctx, "IspecGen_thorough.cfg", "exhaustive")
         gen_and_replay(ctx, "IspecSim.cfg", "simulated", simulate="num=1500", depth=16)
     ctx.exhaustive = False
+    ctx.note("wall_s_G", round(time.time() - t0, 1))
+    t0 = time.time()
     # --- T ---------------------------------------------------------------------------------------
     shipped(ctx, 3 if quick else 24)
+    shipped_macros(ctx)
+    ctx.note("wall_s_T", round(time.time() - t0, 1))
 
 
 if __name__ == "__main__":
